@@ -150,7 +150,7 @@ package biscuit
 // signature chain verification (C01)
 
 //@ func (b *Biscuit) authorizerFor(root ed25519.PublicKey, opts []AuthorizerOption) (res Authorizer, err error)
-//@ serves C01 C09 C10 C19
+//@ serves C01 C09 C10 C11 C19
 //@ requires wfToken(b) && len(root) == 32
 //@ requires forall j int :: { opts[j] } 0 <= j && j < len(opts) ==> opts[j] != nil
 //@ modifies nothing
@@ -160,13 +160,16 @@ package biscuit
 //@ ensures no_authorizer_on_error: err != nil ==> res == nil
 //@ ensures accept_implies_chain[C01 C09]: err == nil ==> chainOK(b.container, bview(root)) && proofOK(b.container)
 //@ ensures chain_implies_accept[C01 C09]: chainOK(b.container, bview(root)) && proofOK(b.container) ==> err == nil && res != nil
+//@ ensures passes_options[C11]: err == nil ==> limitsOf(res) == optLimits(opts)
 
 //@ func NewVerifier(b *Biscuit, opts []AuthorizerOption) (res Authorizer, err error)
 //@ serves C01 C10 C11 C13
 //@ requires forall j int :: { opts[j] } 0 <= j && j < len(opts) ==> opts[j] != nil
 //@ modifies nothing
 //@ loop 0 invariant a != nil && fresh(a) && a.baseSymbols != nil && a.baseWorld != nil && a.baseWorld.facts != nil && a.biscuit == b
+//@ loop 0 invariant a.baseWorld.runLimits == aoFold(inner(opts), off(opts), #i, datalog.defaultRunLimits)
 //@ ensures err == nil && res != nil
+//@ ensures applies_all_options[C11]: limitsOf(res) == optLimits(opts) && res.(*authorizer).baseWorld.runLimits == optLimits(opts)
 
 // Options are functions over the unexported *authorizer: only this package can
 // define them, and each one is verified against this contract.
@@ -175,6 +178,7 @@ package biscuit
 //@ requires w != nil && w.baseSymbols != nil
 //@ modifies w.baseWorld
 //@ ensures w.baseWorld != nil && w.baseWorld.facts != nil && len(*w.baseWorld.facts) == 0 && len(w.baseWorld.rules) == 0 && fresh(w.baseWorld)
+//@ defines w.baseWorld.runLimits == aoApply(self, old(w.baseWorld.runLimits))
 
 //@ func WithWorldOptions$1(a *authorizer)
 //@ serves C10 C11
@@ -283,3 +287,36 @@ package biscuit
 //@ modifies nothing
 //@ ensures no_token_on_error: err != nil ==> res == nil
 //@ ensures token_ok: err == nil ==> tokenOK(res)
+
+// ---------------------------------------------------------------------------
+// entry points that create an authorizer (C01 C11 C16)
+
+// Assumed for key sources supplied by the API caller (the two provided by this
+// package are verified against it): deterministic, no side effects, and a key
+// that is either absent (length 0) or a 32-byte ed25519 key.
+//@ functype PublickKeyByIDProjection(id *uint32) (key ed25519.PublicKey, err error)
+//@ serves C10 C16
+//@ modifies nothing
+//@ defines key == ksKey(self, id) && err == ksErr(self, id)
+
+//@ func (b *Biscuit) AuthorizerFor(keySource PublickKeyByIDProjection, opts []AuthorizerOption) (res Authorizer, err error)
+//@ serves C01 C10 C11 C16
+//@ assumes keySource != nil ==> len(ksKey(keySource, b.container.RootKeyId)) == 0 || len(ksKey(keySource, b.container.RootKeyId)) == 32
+//@ requires wfToken(b)
+//@ requires forall j int :: { opts[j] } 0 <= j && j < len(opts) ==> opts[j] != nil
+//@ modifies nothing
+//@ ensures no_authorizer_on_error: err != nil ==> res == nil
+//@ ensures source_error[C16]: keySource != nil && ksErr(keySource, b.container.RootKeyId) != 0 ==> err != nil
+//@ ensures no_key[C16]: keySource != nil && ksErr(keySource, b.container.RootKeyId) == 0 && len(ksKey(keySource, b.container.RootKeyId)) == 0 ==> err == ErrNoPublicKeyAvailable
+//@ ensures uses_selected_key[C01 C16]: err == nil ==> keySource != nil && chainOK(b.container, bview(ksKey(keySource, b.container.RootKeyId))) && proofOK(b.container)
+//@ ensures passes_options[C11]: err == nil ==> limitsOf(res) == optLimits(opts)
+//@ ensures accepts_under_selected_key[C01 C16]: keySource != nil && ksErr(keySource, b.container.RootKeyId) == 0 && len(ksKey(keySource, b.container.RootKeyId)) == 32 && chainOK(b.container, bview(ksKey(keySource, b.container.RootKeyId))) && proofOK(b.container) ==> err == nil
+
+//@ func (b *Biscuit) Authorizer(root ed25519.PublicKey, opts []AuthorizerOption) (res Authorizer, err error)
+//@ serves C01 C10 C11
+//@ requires wfToken(b) && len(root) == 32
+//@ requires forall j int :: { opts[j] } 0 <= j && j < len(opts) ==> opts[j] != nil
+//@ modifies nothing
+//@ ensures no_authorizer_on_error: err != nil ==> res == nil
+//@ ensures accept_iff_chain[C01]: (err == nil) == (chainOK(b.container, bview(root)) && proofOK(b.container))
+//@ ensures passes_options[C11]: err == nil ==> limitsOf(res) == optLimits(opts)
